@@ -263,6 +263,15 @@ def run_fake(cfg, seed, outdir, resume_after=None):
             with mock.patch.object(ImportanceNestedSampler, "update_evidence", wrapped):
                 sampler.nested_sampling_loop()
         snaps.append(snapshot(sampler, "finalised"))
+        # "after finalisation" includes a second call of the loop on the finished sampler (a re-run script): every stored
+        # sample must still carry the densities of the saved proposals (seeded change C03-hB re-initialised before the
+        # early exit and replaced both sets with fresh prior draws)
+        try:
+            sampler.nested_sampling_loop()
+        except Exception as e:  # noqa
+            e._c03_partial = (list(snaps), sampler.model)
+            raise
+        snaps.append(snapshot(sampler, "finalised-loop-called-again"))
         level_c = [m.c.numpy().copy() for m in sampler.proposal.flow.models]
         if resume_after:
             import pickle
@@ -577,6 +586,8 @@ def one_real_run(ctx, cfg, seed):
     snaps = []
     try:
         model = make_model(cfg["dims"], seed, cfg.get("cut", False), cfg.get("uprior", False), cfg.get("lcut", False), 0.0, cfg.get("nobounds", False))
+        if cfg.get("pool"):
+            model.parallelise_prior = True          # what FlowSampler(parallelise_prior=True) sets
         sampler = ImportanceNestedSampler(
             model, nlive=cfg["nlive"], output=tmp, seed=seed, plot=False, checkpointing=False,
             min_samples=cfg["min_samples"], max_iteration=cfg["levels"], min_iteration=cfg["levels"],
@@ -584,6 +595,9 @@ def one_real_run(ctx, cfg, seed):
             draw_iid_live=cfg["iid"], reparameterisation=cfg["reparam"], save_log_q=True,
             flow_config=real_flow_config(cfg), training_config=dict(max_epochs=10, patience=5, batch_size=100),
             stopping_criterion="ratio", tolerance=-1e9,
+            # likelihood AND prior evaluated through a process pool: the unit-hypercube prior has its own worker function
+            # (seeded changes C14-eA / C03-hA handed the physical prior to the workers: logU = log p(unit point))
+            **(dict(n_pool=2) if cfg.get("pool") else {}),
         )
         orig = ImportanceNestedSampler.update_evidence
 
@@ -608,6 +622,11 @@ def one_real_run(ctx, cfg, seed):
             oracle_snapshot(ctx, snap, model, model.names, {**case, "at": snap["tag"], "iteration": snap["iteration"]},
                             level_logq=lambda recs, nlev=nlev: level_logq(recs, nlev), tol=1e-5)
     finally:
+        try:
+            if cfg.get("pool"):
+                sampler.close_pool()
+        except Exception:  # noqa
+            pass
         shutil.rmtree(tmp, ignore_errors=True)
     ctx.traces += 1
     ctx.case(("real", repr(cfg), seed), True, {"cfg": cfg, "seed": seed, "snapshots": len(snaps)}, kind="neural")
@@ -632,7 +651,7 @@ def correspond(ctx):
         for ci, cfg in enumerate(CONFIGS):
             for s in range(nseeds):
                 one_fake_run(ctx, cfg, base + 17 * ci + s + 1, resume=(s % 2 == 0))
-        dist_cfgs = [dict(CONFIGS[0], dist="lars-instance"), dict(CONFIGS[1], dist="lars")]
+        dist_cfgs = [dict(CONFIGS[0], dist="lars-instance"), dict(CONFIGS[1], dist="lars"), dict(CONFIGS[10], pool=True)]
         for ci, cfg in enumerate(([CONFIGS[0], CONFIGS[6], CONFIGS[10]] if ctx.quick else CONFIGS) + LCUT_CONFIGS + dist_cfgs):
             for s in range(ctx.scale(1, 3)):
                 one_real_run(ctx, cfg, base + 300 + 7 * ci + s)
